@@ -286,10 +286,22 @@ def run_history(case):
 
 @st.composite
 def strat_history(draw):
-    kind = draw(st.sampled_from(['construction', 'construction', 'numeric', 'shuffle']))
+    kind = draw(st.sampled_from(['construction', 'construction', 'numeric', 'shuffle', 'any', 'any']))
     seed1, seed2 = str(draw(st.integers(0, 99))), str(draw(st.integers(0, 99)))
     tool = draw(st.sampled_from(['cnfgen', 'cnfgen', 'pbgen']))
-    if kind == 'construction':
+    if kind == 'any':
+        # any two command lines of the grammar (simple, bipartite and dag constructions, numeric families):
+        # the first one runs again after the second
+        def one():
+            k = draw(st.sampled_from(['graph', 'graph', 'numeric-random', 'numeric']))
+            if k == 'graph':
+                return draw(argv_gen.graph_command(random_ok=True, det_ok=True))
+            if k == 'numeric-random':
+                return draw(argv_gen.numeric_random_command())
+            return draw(argv_gen.deterministic_numeric_command())
+        victim = ['--seed', seed1] + one()
+        polluter = ['--seed', seed2] + (victim[2:] if draw(st.integers(0, 3)) == 0 else one())
+    elif kind == 'construction':
         S = draw(st.sampled_from(CONSTRUCTIONS))
         c1, c2 = draw(st.sampled_from(SIMPLE_CMDS)), draw(st.sampled_from(SIMPLE_CMDS))
         victim = ['--seed', seed1] + c1 + S
@@ -328,8 +340,8 @@ SUBCHECKS = [
              rule="batches of 1..30 of the same command lines, each batch executed in two fresh processes with different PYTHONHASHSEED (0/1/4242 vs random/17/99999) and different working directories (the checkout vs a sub-directory, with a blank in its name, of an unrelated tagged git repository); oracle: identical exit status and stdout bytes (header included); non-trivial: exit 0",
              required_labels=['cross-process', 'cross-cwd']),
     SubCheck('history', run_history, strategy=strat_history, quick=500, thorough=20000,
-             rule="in one process: a command line V, then a command line P that shares a graph construction / family size / formula with V but adds graph modifiers or other transformation options, then V again; oracle: both runs of V print the same (exit status, stdout, stderr) - the output is a function of the command line and seed only, not of what ran before; non-trivial: exit 0",
-             required_labels=['construction', 'numeric', 'shuffle']),
+             rule="in one process: a command line V, then a command line P that shares a graph construction / family size / formula with V but adds graph modifiers or other transformation options, then V again; a third of the cases take V and P freely from the whole command line grammar (P equal to V now and then); oracle: both runs of V print the same (exit status, stdout, stderr) - the output is a function of the command line and seed only, not of what ran before; non-trivial: exit 0",
+             required_labels=['construction', 'numeric', 'shuffle', 'any']),
     SubCheck('libseed', run_libseed, strategy=strat_libseed, enumerate_cases=enum_libseed, quick=300, thorough=20000,
              rule="every library generator with a seed argument called twice with the same seed (0, strings, big integers) from different states of the global generator; oracle: equal formulas / graphs",
              required_labels=LIBFNS + ['seed=0']),
